@@ -742,6 +742,12 @@ O(id='SEQUENCE_decode_oer.ext-grid', props=['C03', 'C04', 'C05', 'C14'], kind='n
   defines=['VF_BM_STEP=17'], bound='native grid under ASan/UBSan/LSan with the assertions of h_seq_oer.c: SEQUENCE { a, b OPTIONAL, c, ..., d } of stub members; 4 preambles x extension bitmap fields (length 1..3, unused bits 0..7, first bitmap octet every 17th value) x sequences of at most two of 5 open-type templates x every truncation x every two-chunk split, + 20000 VERIF_SEED random tails',
   timeout=1500)
 
+for _v in (0, 1, 2):
+    O(id='SEQUENCE_decode_ber.grid.v%d' % _v, props=['C03', 'C04', 'C05', 'C14'], kind='native', harness='harness/grid_seq_ber.c', entry='main',
+      functions=['SEQUENCE_decode_ber', 'SEQUENCE_free', 'ber_check_tags', 'ber_fetch_tag', 'ber_fetch_length', 'ber_skip_length', '_t2e_cmp'], no_canary=True,
+      defines=['VF_V=%d' % _v, 'VF_TLVS=4'], bound='native grid under ASan/UBSan/LSan with the assertions of h_seq_ber.c (descriptor variant %d): 5 outer length forms x every sequence of at most 4 of 9 TLV templates (members in and out of order, unknown primitive/constructed additions, end-of-contents, wrong length) x every truncation x every two-chunk split' % _v,
+      timeout=1500)
+
 for _o in OBLIGATIONS:
     if _o.get('enforce') and _o.get('kind') in ('enforce', 'width') and _o.get('tier') == 'quick' and 'C19' not in _o['props']:
         _o['props'] = _o['props'] + ['C19']
